@@ -187,6 +187,8 @@ class RefState:
         self.last_item_line = None
         self.last_include_line = None
         self.opened = []
+        self.rd = 0              # resolve_depth (int or z3 Int)
+        self.idp = 0             # include_depth
 
 
 def ref_defined(st, name):
@@ -230,6 +232,15 @@ def _line_of(x):
     if isinstance(x, Cond):
         return getattr(x, 'line', None)
     return getattr(x, 'line', None)
+
+
+LIMIT = 64
+
+
+def _gt_limit(st, d):
+    if isinstance(d, int):
+        return d > LIMIT
+    return st.it.decide(d > LIMIT, 'ref_depth')
 
 
 def split_ws(s):
@@ -289,6 +300,8 @@ def ref_eval(st, items, file, files=None, strip=False, expander=None, ignore_inc
             if x.name == '__FILE__':
                 st.out.append(Tok('"%s"' % file, ('synth',)))
                 continue
+            if _gt_limit(st, st.rd + 1):
+                raise RefError('ExceedRecursiveLimit')
             if not ref_defined(st, x.name):
                 raise RefError('DefineNotFound', x.name)
             v = ref_value(st, x.name)
@@ -349,6 +362,10 @@ def simple_expander(st, use, v, file, strip):
     if v.get('body_items') is not None:
         sub = RefState(st.it, st.table)
         sub.files, sub.exists, sub.include_paths, sub.quirks = st.files, st.exists, st.include_paths, st.quirks
+        sub.rd = st.rd + 1
+        sub.idp = 0 if 'macro_expansion_resets_include_depth' in st.quirks else st.idp
+        sub.opened = st.opened
+        sub.depth_inc = st.depth_inc
         ref_eval(sub, v['body_items'], file, None, strip, simple_expander, False, st.include_paths)
         st.table = sub.table
         for t in sub.out:
@@ -408,6 +425,8 @@ def ref_include(st, x, file, strip, expander, include_paths):
         fname = x.fname
     else:
         # file named through a macro: its body is the quoted file name
+        if _gt_limit(st, st.rd + 1):
+            raise RefError('ExceedRecursiveLimit')
         if not ref_defined(st, x.style):
             raise RefError('DefineNotFound', x.style)
         v = ref_value(st, x.style)
@@ -428,11 +447,16 @@ def ref_include(st, x, file, strip, expander, include_paths):
     if body == 'INVALID_UTF8':
         raise RefError('Include', ('ReadUtf8', p))
     st.depth_inc += 1
-    if st.depth_inc > 65:
-        raise RefError('Include', ('ExceedRecursiveLimit', None))
+    if st.depth_inc > 400:
+        raise RuntimeError('reference: include recursion not bounded')
+    saved = (st.rd, st.idp)
     try:
+        if _gt_limit(st, st.idp + 1):
+            raise RefError('ExceedRecursiveLimit')
+        st.rd, st.idp = 0, st.idp + 1
         ref_eval(st, body, p, None, strip, expander, False, st.include_paths)
     except RefError as e:
         raise RefError('Include', (e.variant, e.name))
     finally:
         st.depth_inc -= 1
+        st.rd, st.idp = saved
